@@ -250,6 +250,7 @@ def silent_one(diff, name, ids):
 
 
 def cmd_silent(src_dir, jobs, ids):
+    src_dir = os.path.abspath(src_dir)
     todo = []
     for root, _, files in os.walk(src_dir):
         for f in sorted(files):
